@@ -37,6 +37,7 @@ ASSUMPTIONS = [
     "each API call (always-on wrappers)"]
 
 SCEN = ["params_value", "params_vary", "params_minmax", "params_expr",
+        "params_max", "params_min", "params_tiny", "range_x_tiny",
         "range_x", "method_kws", "prep_list", "prep_options",
         "prep_list_via_fit", "returned_params", "returned_params_unpassed",
         "prep_list_unpassed", "force_array", "rater_arrays", "model_args"]
@@ -160,6 +161,35 @@ def edit_params(rng, p, what):
                    max=p["E"].value * float(rng.uniform(50, 1000)))
     elif what == "params_expr":
         p["baseline"].set(expr="contact_point*1e-4")
+    elif what == "params_max":
+        # only the upper bound of one parameter changes
+        n = ["E", "contact_point", "baseline"][int(rng.integers(3))]
+        if n == "E":
+            p[n].set(max=p[n].value * float(rng.uniform(20, 1e4)))
+        else:
+            p[n].set(max=abs(p[n].value) + float(10 ** rng.uniform(-7, -4)))
+    elif what == "params_min":
+        n = ["E", "contact_point", "baseline"][int(rng.integers(3))]
+        if n == "E":
+            p[n].set(min=p[n].value * float(rng.uniform(1e-6, 1e-2)))
+        else:
+            p[n].set(min=-abs(p[n].value) - float(10 ** rng.uniform(-7, -4)))
+    elif what == "params_tiny":
+        # edits far below any "close enough" tolerance in SI units
+        n = ["E", "contact_point", "baseline", "geom"][int(rng.integers(4))]
+        if n == "geom":
+            n = "R" if "R" in p else "alpha"
+        if n == "E":
+            p[n].value = p[n].value * (1 + float(10 ** rng.uniform(-9, -5)))
+        elif n == "contact_point":
+            p[n].value = p[n].value + float(rng.choice([-1, 1])
+                                            * 10 ** rng.uniform(-11, -8.1))
+        elif n == "baseline":
+            p[n].value = p[n].value + float(10 ** rng.uniform(-16, -12))
+        elif n == "R":
+            p[n].value = p[n].value + float(10 ** rng.uniform(-10, -8.1))
+        else:
+            p[n].value = p[n].value * (1 + float(10 ** rng.uniform(-8, -5)))
 
 
 def scenario(rec, rng, cid):
@@ -184,7 +214,8 @@ def scenario(rec, rng, cid):
                   "fresh copies in %s (%s)" % (d, stage), case)
 
     if sc in ("params_value", "params_vary", "params_minmax", "params_expr",
-              "range_x", "method_kws"):
+              "params_max", "params_min", "params_tiny", "range_x",
+              "range_x_tiny", "method_kws"):
         a, b = twins()
         for t in (a, b):
             t.apply_preprocessing(list(pipe))
@@ -196,7 +227,7 @@ def scenario(rec, rng, cid):
             obj = copy.deepcopy(obj)
             obj["E"].value = spec["params"]["E"] * 1.3
             key = "params_initial"
-        elif sc == "range_x":
+        elif sc in ("range_x", "range_x_tiny"):
             obj = [-1.5e-6, 1e-6]
             kw.pop("range_x", None)
             kw.pop("optimal_fit_edelta", None)
@@ -219,6 +250,11 @@ def scenario(rec, rng, cid):
             edit_params(rng, obj, sc)
         elif sc == "range_x":
             obj[int(rng.integers(2))] *= float(rng.uniform(.3, .8))
+        elif sc == "range_x_tiny":
+            for j in range(2):
+                if j == 0 or rng.random() < .5:
+                    obj[j] += float(rng.choice([-1, 1])
+                                    * 10 ** rng.uniform(-11, -8.1))
         else:
             # (not max_nfev: lmfit's result after an aborted fit is not
             #  reproducible, observed on identical inputs)
@@ -230,6 +266,18 @@ def scenario(rec, rng, cid):
         g.call("fit_model", a.fit_model, **{key: obj})
         g.call("fit_model", b.fit_model, **{key: copy.deepcopy(o1)})
         compare(a, b, "after-second-call")
+        # "the change is noticed and results are recomputed": a third, fresh
+        # curve that only ever sees the edited values, once
+        c = gen.make_indentation(data, with_tip=False)
+        c.apply_preprocessing(list(pipe))
+        c.fit_model(model_key=mk, **dict(copy.deepcopy(kw),
+                                         **{key: copy.deepcopy(o1)}))
+        rec.event("twin states compared")
+        d = c03.same(c03.snapshot(a), c03.snapshot(c))
+        rec.check(d is None, "change-not-noticed/%s" % sc,
+                  "after the in-place edit and second call '%s' differs from "
+                  "a fresh curve fitted once with the edited values" % d,
+                  case)
         rec.evaluated(dg=(sc, kw, o0, o1, spec))
     elif sc in ("prep_list", "prep_options", "prep_list_via_fit",
                 "prep_list_unpassed"):
@@ -281,6 +329,14 @@ def scenario(rec, rng, cid):
                 g.call("apply_preprocessing", b.apply_preprocessing,
                        copy.deepcopy(s1), copy.deepcopy(o1))
             compare(a, b, "after-second-call")
+            c = gen.make_indentation(data, with_tip=False)
+            c.apply_preprocessing(copy.deepcopy(s1), copy.deepcopy(o1))
+            rec.event("twin states compared")
+            rec.check(c06.columns_fp(a) == c06.columns_fp(c),
+                      "change-not-noticed/%s" % sc,
+                      "after the in-place edit and second request the "
+                      "columns differ from a fresh curve given the edited "
+                      "request once", case)
         else:
             # the edited list is not passed again: a fit must still use what
             # was requested at the time of the call
